@@ -10,7 +10,7 @@ use std::hash::{BuildHasher, Hash, Hasher};
 
 /// Behaviour the harness needs from a key type. `Eq`/`Hash` look at `id` only;
 /// `tok` distinguishes instances ("keeps the originally stored key").
-pub trait KeyT: Clone + Eq + Hash + for<'x> From<&'x KeyRef> + 'static {
+pub trait KeyT: Clone + Eq + Hash + std::fmt::Debug + for<'x> From<&'x KeyRef> + 'static {
     const TRACKED: bool;
     const NAME: &'static str;
     fn make(id: u8, tok: u32) -> Self;
@@ -20,7 +20,7 @@ pub trait KeyT: Clone + Eq + Hash + for<'x> From<&'x KeyRef> + 'static {
     fn serial(&self) -> Option<u32>;
 }
 
-pub trait ValT: Clone + PartialEq + Default + 'static {
+pub trait ValT: Clone + PartialEq + Default + std::fmt::Debug + 'static {
     const TRACKED: bool;
     fn make(tok: u32) -> Self;
     fn tok(&self) -> u32;
@@ -482,5 +482,48 @@ impl<'de> serde::Deserialize<'de> for TVal {
     fn deserialize<D: serde::Deserializer<'de>>(d: D) -> Result<Self, D::Error> {
         let v = u64::deserialize(d)?;
         Ok(TVal::make(v as u32))
+    }
+}
+
+// ---------------------------------------------------------------------------
+// Debug: every element prints one marker ("K#" / "V#"), tracked elements check that they are live -
+// a Debug impl of a collection or iterator that walks moved-out or dropped slots is caught here.
+// ---------------------------------------------------------------------------
+
+fn dbg_live(what: &str, serial: u32) {
+    if !env::reg_is_live(serial) {
+        env::error(format!("Debug formatting reached {what} #{serial} which is not live (moved out or dropped)"));
+    }
+}
+impl std::fmt::Debug for TKey {
+    fn fmt(&self, f: &mut std::fmt::Formatter<'_>) -> std::fmt::Result {
+        dbg_live("key", self.serial);
+        write!(f, "K#{}", self.id)
+    }
+}
+impl std::fmt::Debug for TVal {
+    fn fmt(&self, f: &mut std::fmt::Formatter<'_>) -> std::fmt::Result {
+        dbg_live("value", self.serial);
+        write!(f, "V#{}", self.tok)
+    }
+}
+impl std::fmt::Debug for PKey {
+    fn fmt(&self, f: &mut std::fmt::Formatter<'_>) -> std::fmt::Result {
+        write!(f, "K#{}", self.id)
+    }
+}
+impl std::fmt::Debug for PVal {
+    fn fmt(&self, f: &mut std::fmt::Formatter<'_>) -> std::fmt::Result {
+        write!(f, "V#{}", self.0)
+    }
+}
+impl std::fmt::Debug for CKey {
+    fn fmt(&self, f: &mut std::fmt::Formatter<'_>) -> std::fmt::Result {
+        write!(f, "K#{}", self.id)
+    }
+}
+impl std::fmt::Debug for CVal {
+    fn fmt(&self, f: &mut std::fmt::Formatter<'_>) -> std::fmt::Result {
+        write!(f, "V#{}", self.0)
     }
 }
